@@ -108,10 +108,13 @@ fn parse_complete_sip(parser_: Parser, bytes: &[u8]) -> Result<CompleteItem, Err
     // look for optional content-length header
     let body = match headers.get_named::<ContentLength>() {
         Ok(len) => {
+            // the announced length comes from the peer and may be anything up to usize::MAX
+            let body_end = head_end.checked_add(len.0);
+
             if len.0 == 0 {
                 Bytes::new()
-            } else if buffer.len() >= head_end + len.0 {
-                buffer.slice(head_end..head_end + len.0)
+            } else if let Some(body_end) = body_end.filter(|body_end| buffer.len() >= *body_end) {
+                buffer.slice(head_end..body_end)
             } else {
                 log::warn!("Incoming SIP message has an incomplete body");
                 return Err(Error::FailedToParse);
